@@ -365,6 +365,12 @@ def isOk : R α → Bool
   | .ok _ => true
   | .error _ => false
 
+instance [DecidableEq α] : DecidableEq (Except ParseErr α)
+  | .ok a, .ok b => if h : a = b then isTrue (by rw [h]) else isFalse (by intro e; cases e; exact h rfl)
+  | .error a, .error b => if h : a = b then isTrue (by rw [h]) else isFalse (by intro e; cases e; exact h rfl)
+  | .ok _, .error _ => isFalse (by intro e; cases e)
+  | .error _, .ok _ => isFalse (by intro e; cases e)
+
 def rString : J → R String
   | .str raw => match decodeStr raw with
     | some cs => .ok (String.ofList cs)
@@ -407,30 +413,41 @@ def indexOf? (names : List String) (s : String) : Option Nat :=
   | [] => none
   | n :: ns => if n = s then some 0 else (indexOf? ns s).map (· + 1)
 
+def J.isNull : J → Bool
+  | .null => true
+  | _ => false
+
+def J.isEmptyObj : J → Bool
+  | .obj [] => true
+  | _ => false
+
+/-- The variant a (raw) string names: its index in `names`. -/
+def variantOf (names : List String) (raw : List Char) : R Nat :=
+  match decodeStr raw with
+  | none => .error .badString
+  | some cs => match indexOf? names (String.ofList cs) with
+    | some i => .ok i
+    | none => .error .unknownVariant
+
 /-- A unit-only enum with the given variant names (`deserialize_enum`: serde_json `de.rs:1869-1899`,
-`ContentDeserializer` `private/de.rs:1436-1475`); the result is the variant's index. -/
+`ContentDeserializer` `private/de.rs:1436-1475`); the result is the variant's index.  Besides the plain
+string, `{"variant": null}` is read (`unit_variant`: `()` is awaited; from `Content` `{"variant": {}}`
+too, `private/de.rs:1317-1336`). -/
 def rEnum (c : Bool) (names : List String) : J → R Nat
-  | .str raw => match decodeStr raw with
-    | none => .error .badString
-    | some cs => match indexOf? names (String.ofList cs) with
-      | some i => .ok i
-      | none => .error .unknownVariant
+  | .str raw => variantOf names raw
   | .obj [] => .error (if c then .invalidValue else .expectedValue)
-  | .obj ((k, v) :: rest) =>
-    if c ∧ rest ≠ [] then .error .invalidValue          -- "map with a single key"
-    else match decodeStr k with
-      | none => .error .badString
-      | some cs => match indexOf? names (String.ofList cs) with
-        | none => .error .unknownVariant
-        | some i =>
-          -- `unit_variant`: `()` is awaited: `null` (in `Content` also `{}`)
-          let unitOk := match v with
-            | .null => true
-            | .obj [] => c
-            | _ => false
-          if unitOk = false then .error (if c then .invalidType else typeErr v)
-          else if rest ≠ [] then .error .expectedValue  -- `}` awaited after the single member
-          else .ok i
+  | .obj [(k, v)] =>
+    match variantOf names k with
+    | .error e => .error e
+    | .ok i =>
+      if v.isNull || (c && v.isEmptyObj) then .ok i
+      else .error (if c then .invalidType else typeErr v)
+  | .obj ((k, v) :: _ :: _) =>
+    if c then .error .invalidValue                      -- "map with a single key"
+    else match variantOf names k with
+      | .error e => .error e
+      | .ok _ => if v.isNull then .error .expectedValue   -- `}` awaited after the single member
+                 else .error (typeErr v)
   | _ => .error (if c then .invalidType else .expectedValue)
 
 /-! ## The derive rules for structs -/
@@ -496,48 +513,39 @@ def problemFields : List String := ["type", "status", "detail"]
 def problemCheck (key : String) (v : J) : R Unit :=
   if key = "status" then unit (rOpt rUsize v) else unit (rOpt rString v)
 
+def problemBuild (t : R (Option String)) (s : R (Option Nat)) (d : R (Option String)) : R Problem :=
+  match t with
+  | .error e => .error e
+  | .ok t => match s with
+    | .error e => .error e
+    | .ok s => match d with
+      | .error e => .error e
+      | .ok d => .ok { type := t, status := s, detail := d }
+
+def problemSeq (c : Bool) (xs : List J) : R Problem :=
+  match seqCheck c [fun j => unit (rOpt rString j), fun j => unit (rOpt rUsize j),
+                    fun j => unit (rOpt rString j)] xs with
+  | .error e => .error e
+  | .ok () =>
+    match xs with
+    | [a, b, d] => problemBuild (rOpt rString a) (rOpt rUsize b) (rOpt rString d)
+    | _ => .error .invalidLength
+
+def problemMap (ms : List (List Char × J)) : R Problem :=
+  match scanFields problemFields problemCheck [] ms with
+  | .error e => .error e
+  | .ok fs => problemBuild (opt fs "type" rString) (opt fs "status" rUsize) (opt fs "detail" rString)
+
 def rProblem : J → R Problem
-  | .obj ms =>
-    match scanFields problemFields problemCheck [] ms with
-    | .error e => .error e
-    | .ok fs =>
-      match opt fs "type" rString, opt fs "status" rUsize, opt fs "detail" rString with
-      | .ok t, .ok s, .ok d => .ok { type := t, status := s, detail := d }
-      | .error e, _, _ => .error e
-      | _, .error e, _ => .error e
-      | _, _, .error e => .error e
-  | .arr xs =>
-    match seqCheck false [fun j => unit (rOpt rString j), fun j => unit (rOpt rUsize j),
-                          fun j => unit (rOpt rString j)] xs with
-    | .error e => .error e
-    | .ok () =>
-      match xs with
-      | [a, b, d] =>
-        (match rOpt rString a, rOpt rUsize b, rOpt rString d with
-         | .ok t, .ok s, .ok d => .ok { type := t, status := s, detail := d }
-         | .error e, _, _ => .error e
-         | _, .error e, _ => .error e
-         | _, _, .error e => .error e)
-      | _ => .error .invalidLength
+  | .obj ms => problemMap ms
+  | .arr xs => problemSeq false xs
   | j => .error (typeErr j)
 
-/-- In `Content` the leaves cannot fail on strings/numbers any more (everything was read strictly while
-buffering), but the same functions apply: only `seqCheck`'s flag differs. -/
+/-- From the `Content` buffer: the leaves cannot fail on strings/numbers any more (everything was read
+strictly while buffering) and the same functions apply; too many elements is `invalid length`. -/
 def rProblemC : J → R Problem
-  | .arr xs =>
-    match seqCheck true [fun j => unit (rOpt rString j), fun j => unit (rOpt rUsize j),
-                         fun j => unit (rOpt rString j)] xs with
-    | .error e => .error e
-    | .ok () =>
-      match xs with
-      | [a, b, d] =>
-        (match rOpt rString a, rOpt rUsize b, rOpt rString d with
-         | .ok t, .ok s, .ok d => .ok { type := t, status := s, detail := d }
-         | .error e, _, _ => .error e
-         | _, .error e, _ => .error e
-         | _, _, .error e => .error e)
-      | _ => .error .invalidLength
-  | .obj ms => rProblem (.obj ms)
+  | .obj ms => problemMap ms
+  | .arr xs => problemSeq true xs
   | _ => .error .invalidType
 
 inductive OrderStatus | pending | ready | processing | valid | invalid
@@ -606,25 +614,24 @@ def identifierFields : List String := ["type", "value"]
 def identifierCheck (key : String) (v : J) : R Unit :=
   if key = "type" then unit (rIdType v) else unit (rString v)
 
+def identifierBuild (t : R IdType) (v : R String) : R Identifier :=
+  match t with
+  | .error e => .error e
+  | .ok t => match v with
+    | .error e => .error e
+    | .ok v => .ok { idType := t, value := v }
+
 def rIdentifier : J → R Identifier
   | .obj ms =>
     match scanFields identifierFields identifierCheck [] ms with
     | .error e => .error e
-    | .ok fs =>
-      match req fs "type" rIdType, req fs "value" rString with
-      | .ok t, .ok v => .ok { idType := t, value := v }
-      | .error e, _ => .error e
-      | _, .error e => .error e
+    | .ok fs => identifierBuild (req fs "type" rIdType) (req fs "value" rString)
   | .arr xs =>
     match seqCheck false [fun j => unit (rIdType j), fun j => unit (rString j)] xs with
     | .error e => .error e
     | .ok () =>
       match xs with
-      | [a, b] =>
-        (match rIdType a, rString b with
-         | .ok t, .ok v => .ok { idType := t, value := v }
-         | .error e, _ => .error e
-         | _, .error e => .error e)
+      | [a, b] => identifierBuild (rIdType a) (rString b)
       | _ => .error .invalidLength
   | j => .error (typeErr j)
 
@@ -760,37 +767,40 @@ inductive Challenge
   | unknown
   deriving DecidableEq, Repr, Inhabited
 
-/-- The tag: a string (decoded); every string other than the three names is the `other` variant. -/
+/-- The variant a tag names; every string other than the three names is the `other` variant (`none`). -/
+def tagOfName (s : String) : Option (TokenChallenge → Challenge) :=
+  if s = "http-01" then some Challenge.http01
+  else if s = "dns-01" then some Challenge.dns01
+  else if s = "tls-alpn-01" then some Challenge.tlsAlpn01
+  else none
+
+/-- The tag: a string (decoded). -/
 def rTag : J → R (Option (TokenChallenge → Challenge))
   | .str raw => match decodeStr raw with
     | none => .error .badString
-    | some cs =>
-      let s := String.ofList cs
-      .ok (if s = "http-01" then some Challenge.http01
-           else if s = "dns-01" then some Challenge.dns01
-           else if s = "tls-alpn-01" then some Challenge.tlsAlpn01
-           else none)
+    | some cs => .ok (tagOfName (String.ofList cs))
   | j => .error (typeErr j)
 
-/-- `TaggedContentVisitor::visit_map`: (tag, the other members) or the first error. -/
-def bufferMembers (rem : Nat) :
-    Option (Option (TokenChallenge → Challenge)) → List (List Char × J) →
-    R (Option (Option (TokenChallenge → Challenge)) × List (List Char × J))
-  | tag, [] => .ok (tag, [])
-  | tag, (k, v) :: ms =>
+def isTypeKey (kv : List Char × J) : Bool := (decodeStr kv.1).map String.ofList == some "type"
+
+/-- `TaggedContentVisitor::visit_map` (`private/de.rs:880-907`): the first error met while the members
+are buffered, in text order.  A key is decoded; the member named `type` is the tag (a second one is
+`duplicate field`, its value must be a string), every other member is read into a `Content` — strictly,
+whatever its name.  `seen`: a tag was met before. -/
+def bufferCheck (rem : Nat) : Bool → List (List Char × J) → Option ParseErr
+  | _, [] => none
+  | seen, (k, v) :: ms =>
     match decodeStr k with
-    | none => .error .badString
-    | some kc =>
-      if String.ofList kc = "type" then
-        if tag.isSome then .error (.duplicateField "type")
+    | none => some .badString
+    | some _ =>
+      if isTypeKey (k, v) then
+        if seen then some (.duplicateField "type")
         else match rTag v with
-          | .error e => .error e
-          | .ok t => bufferMembers rem (some t) ms
+          | .error e => some e
+          | .ok _ => bufferCheck rem true ms
       else match strictErr rem v with
-        | some e => .error e
-        | none => match bufferMembers rem tag ms with
-          | .error e => .error e
-          | .ok (t, rest) => .ok (t, (k, v) :: rest)
+        | some e => some e
+        | none => bufferCheck rem seen ms
 
 def firstStrictErr (rem : Nat) : List J → Option ParseErr
   | [] => none
@@ -798,15 +808,26 @@ def firstStrictErr (rem : Nat) : List J → Option ParseErr
     | some e => some e
     | none => firstStrictErr rem xs
 
+/-- The variant named by the tag value `v`, read from the other members `rest` (object form) … -/
+def challengeOfTag (v : J) (token : R TokenChallenge) (unknownOk : Bool) : R Challenge :=
+  match rTag v with
+  | .error e => .error e
+  | .ok none =>
+    -- `InternallyTaggedUnitVisitor`: `visit_map` takes every entry; `visit_seq` takes nothing and
+    -- `SeqDeserializer::end` then demands that nothing is left
+    if unknownOk then .ok .unknown else .error .invalidLength
+  | .ok (some mk) => mapR mk token
+
 /-- `Challenge::deserialize` on a `serde_json::Deserializer` whose `remaining_depth` is `rem`. -/
 def rChallenge (rem : Nat) : J → R Challenge
   | .obj ms =>
     if rem ≤ 1 then .error .recursionLimit
-    else match bufferMembers (rem - 1) none ms with
-      | .error e => .error e
-      | .ok (none, _) => .error (.missingField "type")
-      | .ok (some none, _) => .ok .unknown
-      | .ok (some (some mk), rest) => mapR mk (rTokenMap rest)
+    else match bufferCheck (rem - 1) false ms with
+      | some e => .error e
+      | none =>
+        match ms.find? isTypeKey with
+        | none => .error (.missingField "type")
+        | some (_, v) => challengeOfTag v (rTokenMap (ms.filter fun kv => !isTypeKey kv)) true
   | .arr xs =>
     if rem ≤ 1 then .error .recursionLimit
     else match xs with
@@ -814,14 +835,10 @@ def rChallenge (rem : Nat) : J → R Challenge
       | t :: rest =>
         match rTag t with
         | .error e => .error e
-        | .ok tag =>
+        | .ok _ =>
           match firstStrictErr (rem - 1) rest with
           | some e => .error e
-          | none => match tag with
-            -- `InternallyTaggedUnitVisitor::visit_seq` takes nothing, `SeqDeserializer::end` then
-            -- demands that nothing is left
-            | none => if rest.isEmpty then .ok .unknown else .error .invalidLength
-            | some mk => mapR mk (rTokenSeq rest)
+          | none => challengeOfTag t (rTokenSeq rest) rest.isEmpty
   | j => .error (typeErr j)
 
 /-- `Authorization` (`authorization.rs:14-22`, no renaming). -/
@@ -1046,10 +1063,12 @@ def rAccount (rem : Nat) : J → R AccountResponse
 /-! ## From the text: `serde_json::from_str::<T>` (= `ValidHttpResponse::json::<T>`, `http.rs:35-40`, and
 the `FromStr` impls of `deserialize_from_str!`, `structs.rs:1-13`) -/
 
-def fromText (p : J → R α) (s : String) : R α :=
-  match lex s with
+def fromChars (p : J → R α) (cs : List Char) : R α :=
+  match lexChars cs with
   | none => .error .syntax
   | some j => p j
+
+def fromText (p : J → R α) (s : String) : R α := fromChars p s.toList
 
 def parseDirectory (s : String) : R Directory := fromText rDirectory s
 def parseOrder (s : String) : R Order := fromText rOrder s
